@@ -178,8 +178,18 @@ def lclose(a, b):
 
 
 def _conv(x, u, w):
+    """value(w) asked twice on ONE object (a query must not disturb the next one), then to(w) on that object"""
     from scinumtools.units import Quantity
-    return Quantity(x, u).value(w), Quantity(x, u).to(w)
+    q = Quantity(x, u)
+    first = q.value(w)
+    second = q.value(w)
+    if not (np.all(np.asarray(first) == np.asarray(second)) or (first != first and second != second)):
+        raise RepeatMismatch(f"q=Quantity({x!r},{u!r}); q.value({w!r}) gave {first!r}, asked again {second!r}")
+    return second, q.to(w)
+
+
+class RepeatMismatch(Exception):
+    pass
 
 
 def check(case):
@@ -203,6 +213,8 @@ def _check(case, v):
             tol = 1e-11 * max(t, 500.0)
             try:
                 got, q = _conv(x, u, w)
+            except RepeatMismatch as e:
+                return v.fail("value-repeat", str(e))
             except Exception as e:
                 return v.fail("temp-raised", f"Quantity({x!r},{u!r}) -> {w!r} raised {e!r}")
             for name, g in (("value", got), ("to", q.value())):
@@ -277,6 +289,8 @@ def _check(case, v):
             exp = db_to_level(lv, w)
         try:
             got, q = _conv(x, u, w)
+        except RepeatMismatch as e:
+            return v.fail("value-repeat", str(e))
         except Exception as e:
             return v.fail("log-raised", f"Quantity({x!r},{u!r}) -> {w!r} raised {e!r}")
         for name, g in (("value", got), ("to", q.value())):
